@@ -60,13 +60,20 @@ C08 ==
   /\ (E.r1.out # E.r2.out \/ E.r2.out # E.r3.out \/ E.r1.fstatus # E.r2.fstatus \/ E.r2.fstatus # E.r3.fstatus) => Report("C08", "repeat formatted")
   /\ (E.s1 # E.s2 \/ E.s2 # E.s3) => Report("C08", "repeat statement")
 
+\* C01 on the mini-AST universe: the real token stream of T(ast) is the program's token stream
+GoMiniEv ==
+  /\ E.ev = "gomini"
+  /\ Drift(<<E.tree>>, E.rv, "gomini")
+  /\ (E.rv.status # "nil") => Report("C01", "render fails")
+  /\ (E.rv.status = "nil" /\ E.rtoks # E.toks) => Report("C01", "token stream of the documented construction differs from the program")
+
 \* C07: one recipe built and rendered repeatedly in several processes: all hashes equal
 Det ==
   /\ E.ev = "det"
   /\ (E.nhash # 1 \/ \E i, j \in DOMAIN E.hashes : E.hashes[i] # E.hashes[j]) => Report("C07", "recipe")
 
 Init == l = 1
-Next == l <= Len(Trace) /\ l' = l + 1 /\ (C13 \/ C16 \/ C15 \/ C08 \/ Det)
+Next == l <= Len(Trace) /\ l' = l + 1 /\ (C13 \/ C16 \/ C15 \/ C08 \/ Det \/ GoMiniEv)
 Spec == Init /\ [][Next]_l
 Accepted == TLCGet("stats").diameter - 1 = Len(Trace)
 =============================================================================
